@@ -30,6 +30,11 @@ _r_define  = re.compile(r"^\s*#\s*define\s+([A-Za-z_][A-Za-z_0-9]*)"
                         r"\b((?:[^\n\\]|\\.)*?)$",
                         re.DOTALL | re.MULTILINE)
 _r_line_directive = re.compile(r"^[ \t]*#[ \t]*(?:line|\d+)\b.*$", re.MULTILINE)
+# the same, preceded by the alternatives of _r_comment: used to find the line
+# directives without taking for one a line in the middle of a comment
+_r_comment_or_line_directive = re.compile(
+    r"/\*.*?\*/|//(?:[^\n\\]|\\.)*?$"
+    r"|(^[ \t]*#[ \t]*(?:line|\d+)\b[^\n]*$)", re.DOTALL | re.MULTILINE)
 _r_other_whitespace = re.compile(r"[\r\f\v]")   # C whitespace unknown to pycparser
 _r_partial_enum = re.compile(r"=\s*\.\.\.\s*[,}]|\.\.\.\s*\}")
 _r_enum_dotdotdot = re.compile(r"__dotdotdot\d+__$")
@@ -173,6 +178,8 @@ def _remove_line_directives(csource, line_directives=None):
     # start with '#line' with some spacing allowed, or '#NUMBER'.  This
     # function stores them away and replaces them with exactly the string
     # '#line@N', where N is the index in the list 'line_directives'.
+    # Comments are skipped over (and left in place): a line inside a
+    # comment is never a line directive.
     # It can be called a second time with the list of the first call: the
     # markers already in place are then left alone.
     markers = line_directives is not None
@@ -181,13 +188,15 @@ def _remove_line_directives(csource, line_directives=None):
     already = len(line_directives)
     def replace(m):
         s = m.group()
+        if m.group(1) is None:
+            return s          # a comment, not a line directive
         if (markers and s.startswith('#line@') and s[6:].isdigit()
                 and int(s[6:]) < already):
             return s
         i = len(line_directives)
         line_directives.append(s)
         return '#line@%d' % i
-    csource = _r_line_directive.sub(replace, csource)
+    csource = _r_comment_or_line_directive.sub(replace, csource)
     return csource, line_directives
 
 def _put_back_line_directives(csource, line_directives):
